@@ -274,18 +274,22 @@ M(q, d, conj, sc) ==
 MatchSet(q, conj) == {k \in 1..ND : M(q, Docs[k], conj, "")}
 \* a query whose every top-level clause is negative is refused ("Only excluding terms given");
 \* the lenient parser reports that error and answers everything but the excluded documents
+\* an AND / OR expression is the chain of its operands without markers
+BinAsChain(q) == <<"chain", [x \in 1..Len(q[2]) |-> <<"", q[2][x]>>], q[3]>>
 RECURSIVE AllNegative(_)
 AllNegative(q) == CASE q[1] = "bool" -> \A k \in 1..Len(q[2]) : q[2][k][1] = "-" \/ AllNegative(q[2][k][2])
                     [] q[1] = "paren" -> AllNegative(q[2])
                     [] q[1] = "grp" -> \A k \in 1..Len(q[3]) : q[3][k][1] = "-" \/ AllNegative(q[3][k][2])
                     [] q[1] = "boost" -> AllNegative(RawQ(q[2]))
                     [] q[1] \in {"chain", "rawchain"} -> AllNegative(ChainToBool(q))
+                    [] q[1] = "bin" -> AllNegative(ChainToBool(BinAsChain(q)))     \* (operands may be all-negative groups)
                     [] OTHER -> FALSE
 \* ... the lenient parser adds "or anything" to the outermost clause list
 RECURSIVE NonNegative(_)
 NonNegative(q) == CASE q[1] = "bool" -> <<"bool", Append(q[2], <<"?", <<"all">>>>)>>
                     [] q[1] = "grp" -> <<"grp", q[2], Append(q[3], <<"?", <<"all">>>>)>>
                     [] q[1] \in {"chain", "rawchain"} -> NonNegative(ChainToBool(q))
+                    [] q[1] = "bin" -> NonNegative(ChainToBool(BinAsChain(q)))
                     [] q[1] = "boost" -> <<"boost", NonNegative(RawQ(q[2])), q[3]>>
                     [] OTHER -> <<q[1], NonNegative(q[2])>>
 NegatedSet(q, conj) == MatchSet(NonNegative(q), conj)
